@@ -603,7 +603,10 @@ func builtinIntercepts() map[string]intercept {
 				return []Value{v}
 			}
 		}
-		if v, ok := x.pools[p.Obj]; ok {
+		if v, ok := x.pools[p.Obj]; ok && !(x.task > 0 && x.poolTask[p.Obj] > 0 && x.poolTask[p.Obj] != x.task) && !(x.hbSeg != nil && x.poolThread[p.Obj] > 0 && x.poolThread[p.Obj] != x.hbThread) {
+			// (inside a fork/join region or pipeline under analysis an object Put by a SIBLING goroutine is not
+			// handed over: the footprints are those of the schedule in which the goroutines overlap and
+			// each gets its own object; a hand-over through the pool is ordered by the pool itself)
 			delete(x.pools, p.Obj)
 			x.e.stubs["sync.Pool (one-slot LIFO: Get returns the last object Put, else New())"] = true
 			return []Value{v}
@@ -628,6 +631,14 @@ func builtinIntercepts() map[string]intercept {
 			x.pools = map[*Object]Value{}
 		}
 		x.pools[p.Obj] = args[1]
+		if x.poolTask == nil {
+			x.poolTask, x.poolThread = map[*Object]int{}, map[*Object]int{}
+		}
+		x.poolTask[p.Obj] = x.task
+		x.poolThread[p.Obj] = 0
+		if x.hbSeg != nil {
+			x.poolThread[p.Obj] = x.hbThread
+		}
 		return nil
 	}
 	m["runtime.GOMAXPROCS"] = func(x *Exec, fn *ssa.Function, args []Value) []Value {
